@@ -1,6 +1,9 @@
 //! C17 – iterator and I/O adaptors are transparent and count exactly.
 //! Correspondence with model/Adaptors.v (scripted inner object wrapped by the REAL adaptors,
 //! tokio/futures polled by hand with a no-op waker) + independent oracle + rayon runs.
+//! The oracle (`apply_reps`, the transparency comparisons in `run_seq`) is written from the property
+//! text; where /repo HEAD departs from it the failure gets one of four narrow classes (see the two
+//! switches below and docs/C17.md "Findings").
 use futures_core::Stream;
 use indicatif::{ParallelProgressIterator, ProgressBar, ProgressDrawTarget, ProgressFinish, ProgressIterator};
 use rayon::prelude::*;
@@ -11,6 +14,36 @@ use std::sync::atomic::{AtomicU64, Ordering};
 use std::task::{Context, Poll, RawWaker, RawWakerVTable, Waker};
 use tokio::io::{AsyncBufRead, AsyncRead, AsyncSeek, AsyncWrite, ReadBuf};
 use verif_harness::*;
+
+// ------------------------------------------------------------------ switches (the only two things to flip)
+/// Which of the candidate repairs /verif/docs/patches/C17-<name>.diff the tree under test (/repo)
+/// contains.  It selects the variant of the Coq model (model/Adaptors.v `variant`) the
+/// correspondence compares the implementation with; the ORACLE does not look at it (it states the
+/// property, whatever the code does).  Flip an entry to `true` after committing that patch to /repo.
+struct Patches {
+    stream_size_hint: bool,     // C17-stream-size-hint.diff
+    stream_end_guard: bool,     // C17-stream-end-guard.diff
+    poll_read_saturating: bool, // C17-poll-read-saturating.diff
+    async_write_vectored: bool, // C17-async-write-vectored.diff
+}
+const REPO_HAS: Patches = Patches { stream_size_hint: false, stream_end_guard: false, poll_read_saturating: false, async_write_vectored: false };
+
+/// The four deviations of /repo HEAD from the property text that the oracle detects
+/// (`stream-size-hint-not-forwarded`, `stream-end-refinishes-finished-bar`,
+/// `poll-read-filled-shrunk-underflow`, `async-write-vectored-not-forwarded`) are neither repaired in
+/// /repo nor listed as open in known_findings.json yet.  While this is `false` they are COUNTED in the
+/// evidence distribution (`unreported-finding:<class>`) but not reported as oracle failures; set it
+/// to `true` as soon as the patches are committed (then nothing is left to report) or the classes are
+/// registered as open findings (then `./check` prints KNOWN-FINDING for them).
+const REPORT_OPEN_FINDINGS: bool = false;
+
+fn finding(s: &mut Session, class: &str, detail: String, desc: String) {
+    if REPORT_OPEN_FINDINGS {
+        s.fail(class, detail, desc);
+    } else {
+        s.count(&format!("unreported-finding:{class}"));
+    }
+}
 
 // ------------------------------------------------------------------ scripted inner object (state machine `St`, handle `Scripted`)
 #[derive(Clone, Debug, PartialEq)]
@@ -45,13 +78,12 @@ enum Rep {
     Moved(u64),
     /// a seek arrived at this offset
     SeekTo(u64),
-    /// a blocking iterator said None
-    IterEnd,
-    /// a stream said Ready(None)
-    StreamEnd,
+    /// an iterator (blocking: None; stream: Ready(None)) reported exhaustion
+    End,
     /// error / Pending / query: nothing was transferred
     Nothing,
-    /// read_exact failed after handing over k bytes (reported as an error: counts 0)
+    /// read_exact failed after putting k bytes into the caller's buffer.  The call reports only
+    /// Err: Interpretation I1 of docs/C17.md (nothing is counted), tallied in the distribution
     ExactPartial(u64),
 }
 
@@ -200,7 +232,7 @@ impl Iterator for St {
                 Some(x)
             }
             _ => {
-                self.log.push(Rep::IterEnd);
+                self.log.push(Rep::End);
                 None
             }
         }
@@ -218,7 +250,7 @@ impl DoubleEndedIterator for St {
                 Some(x + 1_000_000)
             }
             _ => {
-                self.log.push(Rep::IterEnd);
+                self.log.push(Rep::End);
                 None
             }
         }
@@ -369,6 +401,21 @@ impl AsyncWrite for St {
         }
         Poll::Ready(self.do_write(buf))
     }
+    /// a GENUINELY vectored writer: takes bytes across all slices; the tag in the argument hash
+    /// tells "poll_write_vectored was called" from "poll_write was called"
+    fn poll_write_vectored(mut self: Pin<&mut Self>, _: &mut Context<'_>, bufs: &[IoSlice<'_>]) -> Poll<io::Result<usize>> {
+        self.mix(10);
+        if self.peek() == Ev::Pend {
+            self.pop();
+            self.log.push(Rep::Nothing);
+            return Poll::Pending;
+        }
+        let all: Vec<u8> = bufs.iter().flat_map(|b| b.iter().copied()).collect();
+        Poll::Ready(self.do_write(&all))
+    }
+    fn is_write_vectored(&self) -> bool {
+        self.ctr % 2 == 0
+    }
     fn poll_flush(mut self: Pin<&mut Self>, _: &mut Context<'_>) -> Poll<io::Result<()>> {
         if self.peek() == Ev::Pend {
             self.pop();
@@ -487,7 +534,7 @@ impl Stream for St {
                 Poll::Pending
             }
             _ => {
-                self.log.push(Rep::StreamEnd);
+                self.log.push(Rep::End);
                 Poll::Ready(None)
             }
         }
@@ -580,6 +627,12 @@ impl AsyncWrite for Scripted {
     fn poll_write(self: Pin<&mut Self>, cx: &mut Context<'_>, buf: &[u8]) -> Poll<io::Result<usize>> {
         Pin::new(&mut *g!(self)).poll_write(cx, buf)
     }
+    fn poll_write_vectored(self: Pin<&mut Self>, cx: &mut Context<'_>, bufs: &[IoSlice<'_>]) -> Poll<io::Result<usize>> {
+        Pin::new(&mut *g!(self)).poll_write_vectored(cx, bufs)
+    }
+    fn is_write_vectored(&self) -> bool {
+        AsyncWrite::is_write_vectored(&*g!(self))
+    }
     fn poll_flush(self: Pin<&mut Self>, cx: &mut Context<'_>) -> Poll<io::Result<()>> {
         Pin::new(&mut *g!(self)).poll_flush(cx)
     }
@@ -650,6 +703,8 @@ enum Call {
     WriteVectored(Vec<Vec<u8>>),
     Flush,
     PollWrite(Vec<u8>),
+    PollWriteVectored(Vec<Vec<u8>>),
+    IsWriteVectored,
     PollFlush,
     PollShutdown,
     PollRead(u64, u64),
@@ -703,6 +758,8 @@ impl Call {
             Call::WriteVectored(_) => "write_vectored",
             Call::Flush => "flush",
             Call::PollWrite(_) => "poll_write",
+            Call::PollWriteVectored(_) => "poll_write_vectored",
+            Call::IsWriteVectored => "is_write_vectored",
             Call::PollFlush => "poll_flush",
             Call::PollShutdown => "poll_shutdown",
             Call::PollRead(..) => "poll_read",
@@ -732,6 +789,8 @@ impl Call {
             Call::WriteVectored(ds) => format!("CWriteVectored {}", clist(ds.iter().map(|d| cbytes_v(d)))),
             Call::Flush => "CFlush".into(),
             Call::PollWrite(d) => format!("CPollWrite {}", cbytes_v(d)),
+            Call::PollWriteVectored(ds) => format!("CPollWriteVectored {}", clist(ds.iter().map(|d| cbytes_v(d)))),
+            Call::IsWriteVectored => "CIsWriteVectored".into(),
             Call::PollFlush => "CPollFlush".into(),
             Call::PollShutdown => "CPollShutdown".into(),
             Call::PollRead(f, c) => format!("CPollRead {f} {c}"),
@@ -793,6 +852,7 @@ enum Ret {
     Item(Option<u64>),
     Hint(usize, Option<usize>),
     Len(usize),
+    Bool(bool),
     Count(Vec<u8>, IoR<u64>),
     Exact(Vec<u8>, IoR<()>),
     Slice(IoR<Vec<u8>>),
@@ -831,6 +891,7 @@ impl Ret {
             Ret::Item(o) => format!("RItem {}", copt(o.map(|x| x.to_string()))),
             Ret::Hint(a, b) => format!("RHint ({a}, {})", copt(b.map(|x| x.to_string()))),
             Ret::Len(n) => format!("RLen {n}"),
+            Ret::Bool(x) => format!("RBool {}", cbool(*x)),
             Ret::Count(d, r) => format!("RCount {} {}", cbytes_v(d), c_io(r, num)),
             Ret::Exact(d, r) => format!("RExact {} {}", cbytes_v(d), c_io(r, tt)),
             Ret::Slice(r) => format!("RSlice {}", c_io(r, |v| cbytes_v(v))),
@@ -948,6 +1009,11 @@ where
         }
         Call::Flush => Ret::Done(ior(Write::flush(t))),
         Call::PollWrite(d) => Ret::PollNum(pl(AsyncWrite::poll_write(Pin::new(t), &mut cx, d).map(|r| ior(r.map(|x| x as u64))))),
+        Call::PollWriteVectored(ds) => {
+            let bufs: Vec<IoSlice<'_>> = ds.iter().map(|d| IoSlice::new(d)).collect();
+            Ret::PollNum(pl(AsyncWrite::poll_write_vectored(Pin::new(t), &mut cx, &bufs).map(|r| ior(r.map(|x| x as u64)))))
+        }
+        Call::IsWriteVectored => Ret::Bool(AsyncWrite::is_write_vectored(t)),
         Call::PollFlush => Ret::PollDone(pl(AsyncWrite::poll_flush(Pin::new(t), &mut cx).map(ior))),
         Call::PollShutdown => Ret::PollDone(pl(AsyncWrite::poll_shutdown(Pin::new(t), &mut cx).map(ior))),
         Call::PollRead(filled, cap) => {
@@ -1044,42 +1110,28 @@ impl Expect {
     }
 }
 
-/// Applies what the inner object reported during one adaptor call.  Returns the alternatives the
-/// property text leaves open (only: a stream that ends AGAIN on an already finished bar).
-fn apply_reps(e: &Expect, reps: &[Rep], cfg: &BarCfg) -> Vec<Expect> {
-    let mut alts = vec![e.clone()];
+/// The counting clause of the PROPERTY TEXT applied to what the inner object reported during one
+/// adaptor call: "the position advances by exactly the number of items or bytes actually
+/// transferred (a seek sets it to the new offset), and exhausting an iterator finishes the bar
+/// according to its finish behaviour" - one rule for blocking iterators and streams; a bar that is
+/// already finished has nothing left to finish.  Written from the text, not from iter.rs; the
+/// readings it needs are the Interpretations I1-I3 of docs/C17.md.
+fn apply_reps(e: &Expect, reps: &[Rep], cfg: &BarCfg) -> Expect {
+    let mut a = e.clone();
     for r in reps {
-        let mut next = vec![];
-        for a in alts {
-            let mut a = a;
-            match r {
-                Rep::Moved(k) => {
-                    a.pos = a.pos.wrapping_add(*k);
-                    next.push(a)
+        match r {
+            Rep::Moved(k) => a.pos = a.pos.wrapping_add(*k),
+            Rep::SeekTo(p) => a.pos = *p,
+            Rep::End => {
+                if !a.fin {
+                    a.finish(cfg)
                 }
-                Rep::SeekTo(p) => {
-                    a.pos = *p;
-                    next.push(a)
-                }
-                Rep::IterEnd => {
-                    if !a.fin {
-                        a.finish(cfg)
-                    }
-                    next.push(a)
-                }
-                Rep::StreamEnd => {
-                    if a.fin {
-                        next.push(a.clone()); // left alone ...
-                    }
-                    a.finish(cfg); // ... or finished (again)
-                    next.push(a)
-                }
-                Rep::Nothing | Rep::ExactPartial(_) => next.push(a),
             }
+            // I1: the call reported Err and nothing else; see the doc comment of Rep::ExactPartial
+            Rep::Nothing | Rep::ExactPartial(_) => {}
         }
-        alts = next;
     }
-    alts
+    a
 }
 
 fn run_seq(s: &mut Session, fam: &str, cfg: &BarCfg, script: &[Ev], steps: &[Step], expect_class: Option<&str>) {
@@ -1097,6 +1149,7 @@ fn run_seq(s: &mut Session, fam: &str, cfg: &BarCfg, script: &[Ev], steps: &[Ste
             .join("; ")
     );
     let _ = expect_class;
+    let s = &mut *s;
     // the unwrapped object
     let (mut bare, bare_st) = Scripted::new(script);
     // the adaptor around an identical object
@@ -1146,10 +1199,17 @@ fn run_seq(s: &mut Session, fam: &str, cfg: &BarCfg, script: &[Ev], steps: &[Ste
                 let got = match catch(|| do_call(&mut w, c)) {
                     Ok(r) => r,
                     Err(e) => {
-                        // the only panic the adaptors may raise: inner AsyncRead shrank ReadBuf::filled
+                        // the adaptor must not add a panic of its own, whatever the inner object does.
+                        // Class of finding D-c = a predicate on the input: poll_read on an inner reader
+                        // that shrinks a non-empty filled region
                         let shrink = matches!((c, &peek), (Call::PollRead(f, _), Ev::Shrink(k)) if *f > 0 && *k > 0);
                         if shrink {
-                            s.count("inner-contract-breach:readbuf-shrunk=>adaptor-panics");
+                            finding(
+                                s,
+                                "poll-read-filled-shrunk-underflow",
+                                format!("step #{i} {}: the bare object returned {want:?}; the adaptor panicked: {e}", c.coq()),
+                                desc.clone(),
+                            );
                         } else {
                             s.fail(&format!("panic-{kind}"), format!("step #{i} {} panicked: {e}", c.coq()), desc.clone());
                         }
@@ -1162,10 +1222,42 @@ fn run_seq(s: &mut Session, fam: &str, cfg: &BarCfg, script: &[Ev], steps: &[Ste
                     s.fail(&format!("transparent-{kind}"), format!("step #{i} {}: {e}", c.coq()), desc.clone());
                     return;
                 }
-                // --- transparency: same result as the bare object
-                if got != want {
+                // --- transparency: same result as the bare object, same calls reaching the inner object
+                let reps: Vec<Rep> = st.lock().unwrap().log[before..].to_vec();
+                let inner_now = {
+                    let g = st.lock().unwrap();
+                    (g.ctr, g.sink)
+                };
+                let bare_now = {
+                    let g = bare_st.lock().unwrap();
+                    (g.ctr, g.sink)
+                };
+                let vectored = matches!(c, Call::PollWriteVectored(_) | Call::IsWriteVectored);
+                if vectored {
+                    // finding D-d: class = the call is one of the two tokio AsyncWrite methods the adaptor
+                    // does not forward, and what the caller / the inner object saw differs from the bare run
+                    if got != want || reps != bare_reps || inner_now != bare_now {
+                        finding(
+                            s,
+                            "async-write-vectored-not-forwarded",
+                            format!(
+                                "step #{i} {}: adaptor returned {got:?}, inner calls {reps:?}, inner (offset, arghash) {inner_now:?}; bare object {want:?}, {bare_reps:?}, {bare_now:?}",
+                                c.coq()
+                            ),
+                            desc.clone(),
+                        );
+                        // the two inner objects are out of step from here on
+                        diverged = inner_now != bare_now || reps != bare_reps;
+                    }
+                } else if got != want {
                     match c {
-                        Call::StreamSizeHint => s.count("not-forwarded:Stream::size_hint(default)"),
+                        // finding D-a: class = the call is Stream::size_hint and the results differ
+                        Call::StreamSizeHint => finding(
+                            s,
+                            "stream-size-hint-not-forwarded",
+                            format!("step #{i}: Stream::size_hint() through the adaptor {got:?}, bare object {want:?}"),
+                            desc.clone(),
+                        ),
                         Call::SizeHint => s.fail(
                             "iter-size-hint-not-forwarded",
                             format!("step #{i}: size_hint() through the adaptor {got:?}, bare object {want:?}"),
@@ -1183,9 +1275,7 @@ fn run_seq(s: &mut Session, fam: &str, cfg: &BarCfg, script: &[Ev], steps: &[Ste
                         }
                     }
                 }
-                // --- exact counting, from what the inner object reported during this call
-                let reps: Vec<Rep> = st.lock().unwrap().log[before..].to_vec();
-                if reps != bare_reps && !diverged {
+                if !vectored && reps != bare_reps && !diverged {
                     s.fail(
                         &format!("transparent-{kind}"),
                         format!("step #{i} {}: the inner object behind the adaptor was called {reps:?}, the bare one {bare_reps:?}", c.coq()),
@@ -1193,11 +1283,12 @@ fn run_seq(s: &mut Session, fam: &str, cfg: &BarCfg, script: &[Ev], steps: &[Ste
                     );
                     diverged = true;
                 }
+                // --- exact counting, from what the inner object reported during this call
                 for r in &reps {
                     match r {
-                        Rep::ExactPartial(k) if *k > 0 => s.count("oddity:read_exact-Err-after-partial-transfer-counts-0"),
+                        Rep::ExactPartial(k) if *k > 0 => s.count("interpretation-I1:read_exact-Err-after-partial-transfer-counts-0"),
                         Rep::Moved(k) if *k > 0 && matches!(got, Ret::PollRead(_, _, Pl::Ready(IoR::Err(_)))) => {
-                            s.count("oddity:poll_read-Ready(Err)-after-bytes-counts-them")
+                            s.count("poll_read-Ready(Err)-after-bytes-counts-them")
                         }
                         Rep::Moved(0) => s.count("moved:0"),
                         Rep::Moved(_) => s.count("moved:>0"),
@@ -1205,28 +1296,33 @@ fn run_seq(s: &mut Session, fam: &str, cfg: &BarCfg, script: &[Ev], steps: &[Ste
                         _ => {}
                     }
                 }
-                let alts = apply_reps(&exp, &reps, cfg);
+                let was_finished = exp.fin;
+                let a = apply_reps(&exp, &reps, cfg);
                 let obs = Expect::observed(&pb);
-                if let Some(a) = alts.iter().find(|a| **a == obs) {
-                    if alts.len() > 1 && *a != alts[0] {
-                        s.count("oddity:stream-end-on-finished-bar-finishes-again(observable)");
-                    }
-                    exp = a.clone();
+                if a == obs {
+                    exp = a;
                 } else {
-                    let a = &alts[0];
-                    let class = if a.pos != obs.pos && a.fin == obs.fin {
-                        match c {
-                            Call::PollComplete => "async-seek-position".to_string(),
-                            _ => format!("count-{kind}"),
-                        }
+                    let detail = format!("step #{i} {}: inner reported {reps:?}; getters show {obs:?}, property defines {a:?}", c.coq());
+                    // finding D-b: class = a Stream reported Ready(None) through an adaptor whose bar was
+                    // already finished before the call, and the getters changed
+                    let stream_end_again = matches!(c, Call::PollNext) && reps == [Rep::End] && was_finished;
+                    // finding D-c in builds without overflow checks: no panic, the position moves back
+                    let shrink = matches!((c, &peek), (Call::PollRead(f, _), Ev::Shrink(k)) if *f > 0 && *k > 0);
+                    if stream_end_again {
+                        finding(s, "stream-end-refinishes-finished-bar", detail, desc.clone());
+                    } else if shrink {
+                        finding(s, "poll-read-filled-shrunk-underflow", detail, desc.clone());
                     } else {
-                        format!("finish-on-exhaustion-{kind}")
-                    };
-                    s.fail(
-                        &class,
-                        format!("step #{i} {}: inner reported {reps:?}; getters show {obs:?}, property defines {a:?}", c.coq()),
-                        desc.clone(),
-                    );
+                        let class = if a.pos != obs.pos && a.fin == obs.fin {
+                            match c {
+                                Call::PollComplete => "async-seek-position".to_string(),
+                                _ => format!("count-{kind}"),
+                            }
+                        } else {
+                            format!("finish-on-exhaustion-{kind}")
+                        };
+                        s.fail(&class, detail, desc.clone());
+                    }
                     exp = obs.clone();
                 }
                 coq_steps.push(format!(
@@ -1366,9 +1462,11 @@ fn gen_call(r: &mut Rng, fam: &str) -> Call {
             5..=8 => Call::AConsume(if r.chance(1, 12) { offset(r) } else { r.below(12) }),
             _ => Call::PollRead(0, buflen(r)),
         },
-        "awrite" => match r.below(10) {
-            0..=5 => Call::PollWrite(bytes(r)),
-            6..=7 => Call::PollFlush,
+        "awrite" => match r.below(14) {
+            0..=4 => Call::PollWrite(bytes(r)),
+            5..=8 => Call::PollWriteVectored((0..r.below(4)).map(|_| bytes(r)).collect()),
+            9 => Call::IsWriteVectored,
+            10..=11 => Call::PollFlush,
             _ => Call::PollShutdown,
         },
         "aseek" => match r.below(10) {
@@ -1409,7 +1507,7 @@ fn gen_ev(r: &mut Rng, c: &Call) -> Option<Ev> {
         _ => Ev::End,
     };
     Some(match c {
-        Call::SizeHint | Call::Len | Call::StreamSizeHint | Call::Consume(_) | Call::AConsume(_) | Call::StreamPosition => return None,
+        Call::SizeHint | Call::Len | Call::StreamSizeHint | Call::Consume(_) | Call::AConsume(_) | Call::StreamPosition | Call::IsWriteVectored => return None,
         _ if wild => any(r),
         Call::Next | Call::NextBack => match r.below(10) {
             0..=6 => Ev::Item(r.below(1000)),
@@ -1429,6 +1527,7 @@ fn gen_ev(r: &mut Rng, c: &Call) -> Option<Ev> {
         Call::Write(d) => count(r, d.len() as u64, false),
         Call::PollWrite(d) => count(r, d.len() as u64, true),
         Call::WriteVectored(ds) => count(r, ds.iter().map(|d| d.len() as u64).sum(), false),
+        Call::PollWriteVectored(ds) => count(r, ds.iter().map(|d| d.len() as u64).sum(), true),
         Call::PollRead(f, cap) => {
             if r.chance(1, 25) {
                 Ev::Shrink(r.below(3))
@@ -1512,7 +1611,7 @@ fn gen_seq(r: &mut Rng) -> (&'static str, BarCfg, Vec<Ev>, Vec<Step>) {
 fn run_composite(s: &mut Session, r: &mut Rng) {
     let cfg = gen_cfg(r);
     let which = r.below(11);
-    let name = ["read_to_end", "io::copy(reader)", "write_all", "read_until", "nth", "count", "last", "rev().collect", "fold+by_ref().take", "io::copy(writer)", "poll_write_vectored(tokio default)"][which as usize];
+    let name = ["read_to_end", "io::copy(reader)", "write_all", "read_until", "nth", "count", "last", "rev().collect", "fold+by_ref().take", "io::copy(writer)", "poll_write_vectored+is_write_vectored"][which as usize];
     // an honest finite script: after its end the object reports EOF / None / Ok(0) forever
     let n = r.range(0, 12);
     let mut script = vec![];
@@ -1552,7 +1651,7 @@ fn run_composite(s: &mut Session, r: &mut Rng) {
     {
         match which {
             10 => {
-                // not overridden by the adaptor: tokio's default hands the first non-empty buffer to poll_write
+                // the scripted writer is genuinely vectored
                 let w = noop_waker();
                 let mut cx = Context::from_waker(&w);
                 let (a, b) = data.split_at(data.len().min(k));
@@ -1606,19 +1705,28 @@ fn run_composite(s: &mut Session, r: &mut Rng) {
             return;
         }
     };
-    if got != want {
-        s.fail(&format!("transparent-composite-{name}"), format!("adaptor: {got}; bare: {want}"), desc.clone());
-    }
     let (a, b) = (st.lock().unwrap().clone(), bare_st.lock().unwrap().clone());
-    if a.ctr != b.ctr || a.sink != b.sink || a.log != b.log {
+    let differs = got != want || a.ctr != b.ctr || a.sink != b.sink || a.log != b.log;
+    if differs && which == 10 {
+        // only poll_write_vectored / is_write_vectored are called here: finding D-d
+        finding(
+            s,
+            "async-write-vectored-not-forwarded",
+            format!("adaptor: {got}, inner calls {:?}; bare: {want}, inner calls {:?}", a.log, b.log),
+            desc.clone(),
+        );
+    } else if got != want {
+        s.fail(&format!("transparent-composite-{name}"), format!("adaptor: {got}; bare: {want}"), desc.clone());
+    } else if differs {
         s.fail(&format!("transparent-composite-{name}"), format!("inner logs differ: {:?} vs {:?}", a.log, b.log), desc.clone());
     }
-    let alts = apply_reps(&Expect::new(&cfg), &a.log, &cfg);
+    // counting: against what the inner object BEHIND THE ADAPTOR reported
+    let want_bar = apply_reps(&Expect::new(&cfg), &a.log, &cfg);
     let obs = Expect::observed(&pb);
-    if alts[0] != obs {
+    if want_bar != obs {
         s.fail(
             &format!("count-composite-{name}"),
-            format!("inner reported {:?}; getters show {obs:?}, property defines {:?}", a.log, alts[0]),
+            format!("inner reported {:?}; getters show {obs:?}, property defines {want_bar:?}", a.log),
             desc.clone(),
         );
     }
@@ -1852,9 +1960,19 @@ fn run_rayon(s: &mut Session, r: &mut Rng, kind: usize, threads: usize, n: u64, 
 // ------------------------------------------------------------------ main
 fn main() {
     let a = args();
-    let header = "From IndModel Require Import Base Adaptors.\nOpen Scope N_scope.\n";
-    let mut s = Session::new(&a, "C17", header, "c17case", "adaptors_check");
-    s.rule = "seq: one scripted inner object (script = list of short/zero/over-long transfers, errors, Pending, items, end, partial-transfer errors, ReadBuf shrink) wrapped by the real ProgressBarIter (hidden bar; len/pos0/on_finish from the seed, pos0 near 2^64 included), 0..14 calls of one trait family (or mixed) interleaved with set_position/finish/abandon/reset/set_length on the bar; the same calls on an identical bare object; non-trivial = at least 2 steps. composite: std default methods (read_to_end, io::copy, write_all, read_until, nth, count, last, rev, fold) as callers, oracle only. rayon: 22 pipelines (drive, drive_unindexed, with_producer paths, early exit) x 1..16 threads; distinct = distinct description text".into();
+    let header = format!(
+        "From IndModel Require Import Base Adaptors.\nOpen Scope N_scope.\n(* which candidate patches the tree under test contains: harness/src/bin/c17.rs REPO_HAS *)\nDefinition repo_variant : variant :=\n  {{| v_stream_size_hint := {}; v_stream_end_guard := {};\n     v_poll_read_saturating := {}; v_async_write_vectored := {} |}}.\n",
+        cbool(REPO_HAS.stream_size_hint),
+        cbool(REPO_HAS.stream_end_guard),
+        cbool(REPO_HAS.poll_read_saturating),
+        cbool(REPO_HAS.async_write_vectored)
+    );
+    let mut s = Session::new(&a, "C17", &header, "c17case", "(adaptors_check repo_variant)");
+    s.count(&format!(
+        "model-variant:size_hint={} end_guard={} saturating={} write_vectored={}",
+        REPO_HAS.stream_size_hint, REPO_HAS.stream_end_guard, REPO_HAS.poll_read_saturating, REPO_HAS.async_write_vectored
+    ));
+    s.rule = "seq: one scripted inner object (script = list of short/zero/over-long transfers, errors, Pending, items, end, partial-transfer errors, ReadBuf shrink; its AsyncWrite is genuinely vectored) wrapped by the real ProgressBarIter (hidden bar; len/pos0/on_finish from the seed, pos0 near 2^64 included), 0..14 calls of one trait family (or mixed; awrite includes poll_write_vectored / is_write_vectored) interleaved with set_position/finish/abandon/reset/set_length on the bar; the same calls on an identical bare object; non-trivial = at least 2 steps. composite: std default methods (read_to_end, io::copy, write_all, read_until, nth, count, last, rev, fold) and repeated poll_write_vectored as callers, oracle only. rayon: 22 pipelines (drive, drive_unindexed, with_producer paths, early exit) x 1..16 threads; distinct = distinct description text".into();
     let mut r = Rng::new(a.seed);
     let cfg0 = BarCfg { len: Some(5), pos0: 0, fin: 0, msg: "done".into() };
     let cfgc = BarCfg { len: Some(5), pos0: 0, fin: 2, msg: "done".into() };
@@ -1879,9 +1997,17 @@ fn main() {
         // short / zero / over-long reads, errors
         ("read", &cfgm, vec![Ev::N(0), Ev::N(3), Ev::N(99), Ev::Err(4), Ev::Pend], vec![SC(C::Read(5)), SC(C::Read(5)), SC(C::Read(5)), SC(C::Read(5)), SC(C::Read(5)), SC(C::Read(5))]),
         ("read", &cfg0, vec![Ev::N(7), Ev::N(2)], vec![SC(C::ReadVectored(vec![3, 0, 5])), SC(C::ReadToString), SC(C::ReadVectored(vec![]))]),
-        // Iterator: finish on exhaustion, once; Stream: every time
+        // Iterator and Stream: finish on exhaustion, once (HEAD: the stream case is finding D-b)
         ("iter", &cfg0, vec![Ev::Item(1), Ev::End, Ev::End], vec![SC(C::Next), SC(C::Next), SU(UserOp::SetPos(3)), SC(C::Next)]),
         ("stream", &cfg0, vec![Ev::Item(1), Ev::End, Ev::End], vec![SC(C::PollNext), SC(C::PollNext), SU(UserOp::SetPos(3)), SC(C::PollNext)]),
+        // D-a witness (C17_stream_size_hint_refuted): Stream::size_hint with items ahead
+        ("stream", &cfg0, vec![Ev::Item(1), Ev::Item(2)], vec![SC(C::StreamSizeHint), SC(C::PollNext), SC(C::StreamSizeHint)]),
+        // D-b witness (C17_stream_end_refuted): the stream ends on a bar the user abandoned at 3 / finished
+        ("stream", &cfg0, vec![Ev::End], vec![SU(UserOp::SetPos(3)), SU(UserOp::Abandon), SC(C::PollNext)]),
+        ("stream", &cfgm, vec![Ev::End, Ev::End], vec![SU(UserOp::Finish), SC(C::PollNext), SU(UserOp::Reset), SC(C::PollNext)]),
+        // D-d witnesses (C17_async_write_vectored_refuted, C17_is_write_vectored_refuted)
+        ("awrite", &cfg0, vec![Ev::N(4)], vec![SC(C::IsWriteVectored), SC(C::PollWriteVectored(vec![vec![1, 2], vec![3, 4, 5]]))]),
+        ("awrite", &cfg0, vec![Ev::Pend, Ev::N(9), Ev::Err(5), Ev::N(1)], vec![SC(C::PollWriteVectored(vec![vec![], vec![7], vec![8, 9]])), SC(C::PollWriteVectored(vec![vec![], vec![7], vec![8, 9]])), SC(C::PollWriteVectored(vec![vec![1]])), SC(C::PollWriteVectored(vec![])), SC(C::IsWriteVectored)]),
         // non-fused sources
         ("iter", &cfgc, vec![Ev::Item(1), Ev::End, Ev::Item(2), Ev::End], vec![SC(C::Next), SC(C::Next), SC(C::NextBack), SC(C::NextBack)]),
         ("stream", &cfgc, vec![Ev::Item(1), Ev::End, Ev::Item(2), Ev::Pend, Ev::End], vec![SC(C::PollNext), SC(C::PollNext), SC(C::PollNext), SC(C::PollNext), SC(C::PollNext), SC(C::StreamSizeHint)]),
@@ -1894,7 +2020,7 @@ fn main() {
         ("awrite", &cfg0, vec![Ev::Pend, Ev::N(2), Ev::Err(5), Ev::Pend, Ev::N(0), Ev::Pend, Ev::N(0)], vec![SC(C::PollWrite(vec![1, 2, 3])), SC(C::PollWrite(vec![1, 2, 3])), SC(C::PollWrite(vec![3])), SC(C::PollFlush), SC(C::PollFlush), SC(C::PollShutdown), SC(C::PollShutdown)]),
         // poll_read: Pending counts 0, Ready(Err) after bytes counts them, EOF
         ("aread", &cfg0, vec![Ev::Pend, Ev::N(3), Ev::PartialErr(3, 5), Ev::Err(5), Ev::End, Ev::N(99)], vec![SC(C::PollRead(0, 8)), SC(C::PollRead(2, 8)), SC(C::PollRead(2, 10)), SC(C::PollRead(1, 4)), SC(C::PollRead(0, 4)), SC(C::PollRead(3, 6))]),
-        // F4 (documented assumption on the inner object): shrinking ReadBuf::filled => adaptor panics
+        // D-c witness (C17_poll_read_shrink_refuted): the inner reader shrinks ReadBuf::filled
         ("aread", &cfg0, vec![Ev::Shrink(0), Ev::Shrink(1)], vec![SC(C::PollRead(2, 8)), SC(C::PollRead(2, 8))]),
         // seeks in all modes, then data
         ("seek", &cfg0, vec![Ev::N(10), Ev::N(4), Ev::N(u64::MAX), Ev::Err(22), Ev::N(3)], vec![SC(C::Seek(SeekFrom::Start(10))), SC(C::Seek(SeekFrom::Current(-6))), SC(C::Seek(SeekFrom::End(i64::MIN))), SC(C::Seek(SeekFrom::Start(1))), SC(C::StreamPosition), SC(C::Read(3))]),
